@@ -25,7 +25,7 @@ def sim_cases():
         g.op_apply(limits=True, cbscan=True), g.op_apply(limits=True), g.op_apply(limits=True),
         g.run, g.run, g.run, g.adv_lim, g.adv_lim, g.adv_lim, g.adv,
         g.scan, g.scan, g.scan, g.work, g.feed, g.scanrace, g.scanrace,
-        g.worker_ops[0], g.worker_ops[2], g.worker_ops[4], g.hterm, g.tick, g.op_map(), g.op_imap(),
+        g.worker_ops[0], g.worker_ops[2], g.worker_ops[4], g.hterm, g.tick, g.op_map(), g.op_imap(), g.drainlimit, g.slow,
     ]
     return g.history(cfg, ops, max_ops=60, min_ops=12)
 
